@@ -14,8 +14,11 @@ RULE = ("tie: every filesystem event (sys.addaudithook: open with write flags, r
         "of a real run of each command, in a fresh interpreter, must be of a kind that the generated summary attributes to "
         "some function reachable from that command; end to end: recursive snapshots (type, size, sha256, mode, mtime_ns) of a sandbox "
         "holding payload, metafiles, working directory and HOME before/after `recheck|check`, `info`, `magnet|m` (all versions, intact and "
-        "damaged trees, -q/-v, version requests), `create|new|<implicit>` (with -o file, -o dir/, without -o; pre-existing ./.torrent and "
-        "dir/.torrent; existing output), `rename` (normal, new name exists, already named right). Distinct = distinct "
+        "trees damaged by a MISSING file / a truncated file / corruption, v1 --align metafiles whose .pad entries never exist, "
+        "-q/--quiet/-v/--verbose/no flag, cwd = empty directory | the metafile's directory | the payload's parent, version requests), "
+        "`create|new|<implicit>` (with -o file, -o dir/, without -o; pre-existing ./.torrent and dir/.torrent; existing output; the output "
+        "directory, cwd and payload parent pre-populated with bystanders named like temporaries of the output: <out>.tmp <out>~ <out>.bak "
+        ".<out>.swp <out>.part ... which must stay untouched), `rename` (normal, new name exists, already named right). Distinct = distinct "
         "(command spelling, version, tree state, variant).")
 TRUSTED_BASE = [
     "Coq 8.16.1 kernel; theorems closed under the global context",
@@ -71,8 +74,8 @@ def predicted_kinds():
     import gen_effects
     g = callgraph.Graph(core.REPO)
     out = {}
-    for name, q in gen_effects.COMMANDS.items():
-        r = g.reach([q, "cli.execute"])
+    for name in gen_effects.COMMAND_NAMES:
+        r = g.reach(gen_effects.command_roots(g, core.REPO, name))
         kinds = set()
         for f in r:
             kinds |= {k for k, _ in g.fns[f].effects}
@@ -91,39 +94,60 @@ def run(ctx, model_ok):
     counter = [0]
     with core.Scratch("vc18_") as tmp:
         def fresh(label, version, damaged):
-            """sandbox with payload, metafile(s), wd, home"""
+            """sandbox with payload, metafile(s), wd, home.  version: "1" | "2" | "3" | "1a" (v1 with --align: its .pad entries
+            never exist on disk).  damaged: False | True/"corrupt+missing" | "missing" | "truncated" """
             counter[0] += 1
             sb = os.path.join(tmp, f"s{counter[0]}", "sandbox")
             pl = 16384
-            tree = {("a.bin",): ctx.rng.randbytes(pl + 100), ("d", "b.bin"): ctx.rng.randbytes(3 * pl), ("d", "e"): b""}
+            tree = {("a.bin",): ctx.rng.randbytes(pl + 100), ("d", "b.bin"): ctx.rng.randbytes(3 * pl), ("d", "e"): b"",
+                    ("d", "z.bin"): bytes(2 * pl + 7)}
             payload = os.path.join(sb, "data", "payload")
             trees.write_tree(payload, tree)
             os.makedirs(os.path.join(sb, "wd"))
             os.makedirs(os.path.join(sb, "home"))
             os.makedirs(os.path.join(sb, "metas"))
             mf = os.path.join(sb, "metas", "m.torrent")
-            kind = {"1": "v1", "2": "v2-asm", "3": "hybrid-asm"}[version]
-            trees.create(kind, payload, mf, pl, announce=["http://t/a"], url_list=["http://w/s"])
-            if damaged:
+            kind = {"1": "v1", "1a": "v1", "2": "v2-asm", "3": "hybrid-asm"}[version]
+            opts = {"align": True} if version == "1a" else {}
+            trees.create(kind, payload, mf, pl, announce=["http://t/a"], url_list=["http://w/s"], **opts)
+            if damaged in (True, "corrupt+missing"):
                 with open(os.path.join(payload, "d", "b.bin"), "r+b") as fd:
                     fd.seek(pl + 5)
                     fd.write(b"\xff\x00\xff")
                 os.remove(os.path.join(payload, "a.bin"))
+            elif damaged == "missing":
+                os.remove(os.path.join(payload, "d", "b.bin"))
+                os.remove(os.path.join(payload, "d", "z.bin"))
+            elif damaged == "truncated":
+                with open(os.path.join(payload, "d", "b.bin"), "r+b") as fd:
+                    fd.truncate(pl + 11)
+                with open(os.path.join(payload, "a.bin"), "r+b") as fd:
+                    fd.truncate(0)
+            # leftovers of the in-process creation are not part of the judged command
+            for extra in os.listdir(os.path.join(sb, "metas")):
+                if extra != "m.torrent":
+                    os.remove(os.path.join(sb, "metas", extra))
             return sb, payload, mf
 
-        def check_readonly(cmdname, spelling, argv_fn, version, damaged, variant):
+        def check_readonly(cmdname, spelling, argv_fn, version, damaged, variant, cwd="wd"):
             sb, payload, mf = fresh(cmdname, version, damaged)
+            # cwd: an empty working directory, the metafile's directory, or the payload's parent
+            cwdp = {"wd": os.path.join(sb, "wd"), "metas": os.path.dirname(mf), "data": os.path.dirname(payload)}[cwd]
             before = snapshot(sb)
-            rc, out, ev = run_cli(sb, os.path.join(sb, "wd"), argv_fn(payload, mf), counter[0])
+            rc, out, ev = run_cli(sb, cwdp, argv_fn(payload, mf), counter[0])
             after = snapshot(sb)
             d = diff(before, after)
-            inp = {"command": spelling, "argv": argv_fn("<payload>", "<metafile>"), "version": version, "damaged": damaged}
+            inp = {"command": spelling, "argv": argv_fn("<payload>", "<metafile>"), "version": version, "damaged": damaged,
+                   "cwd": cwd}
             if d:
-                ctx.fail(f"{cmdname}-modified-filesystem", inp, "nothing created, changed or deleted", d)
+                ctx.fail(f"{cmdname}-modified-filesystem", inp, "nothing created, changed or deleted (payload, metafile directory, "
+                         "working directory, HOME)", d)
             if rc not in (0,):
                 ctx.notes.append(f"{spelling} {variant} v{version} exited {rc} {out}")
             tie(cmdname, ev, inp)
-            ctx.case(key=(spelling, version, damaged, variant), classes=[f"{cmdname} read-only", "damaged" if damaged else "intact"],
+            ctx.case(key=(spelling, version, str(damaged), variant, cwd),
+                     classes=[f"{cmdname} read-only", "intact" if not damaged else f"damaged: {damaged}", f"cwd {cwd}",
+                              f"flag {variant.split()[0] if variant else 'none'}"],
                      sample={"argv": inp["argv"], "events": [e[:2] for e in ev][:6]} if counter[0] == 1 else None)
 
         def tie(cmdname, ev, inp):
@@ -136,17 +160,46 @@ def run(ctx, model_ok):
                 ctx.disagree(f"generated effect summary of `{cmdname}` vs audited events", inp,
                              sorted(pred[cmdname]), [e for e in ev if e[0] in extra][:5])
 
-        versions = ["1", "2", "3"] if ctx.tier == "thorough" else [ctx.rng.choice(["1", "2", "3"]) for _ in range(2)] + ["3"]
+        # global flags of the CLI (cli.py: -q/--quiet, -v/--verbose) in front of the sub-command; None = default log level
+        FLAGS = ["-v", "--verbose", "-q", "--quiet", None]
+        DAMAGE = [False, "missing", "truncated", "corrupt+missing"]
+        CWDS = ["wd", "metas", "data"]
+
+        def recheck_argv(sp, flag, parent=False):
+            return lambda p, m: ([flag] if flag else []) + [sp, m, os.path.dirname(p) if parent else p]
+
+        if ctx.tier == "thorough":
+            for v in ("1", "1a", "2", "3"):
+                for damaged in DAMAGE:
+                    for flag in FLAGS:
+                        for k, cwd in enumerate(CWDS):
+                            sp = ("recheck", "check")[(k + FLAGS.index(flag)) % 2]
+                            check_readonly("recheck", sp, recheck_argv(sp, flag, parent=(k == 2)), v, damaged,
+                                           f"{flag} {'parent' if k == 2 else 'root'}", cwd)
+        else:
+            k = ctx.rng.randrange(60)
+            for v in ("1", "1a", "2", "3"):
+                for damaged in DAMAGE[:3]:
+                    # every version x damage with the debug flag (the log handlers are live), and once more with another flag
+                    for flag in ("-v", FLAGS[1:][k % 4]):
+                        sp = ("recheck", "check")[k % 2]
+                        cwd = CWDS[k % 3] if flag != "-v" or damaged != "missing" else CWDS[(k // 2) % 2]
+                        check_readonly("recheck", sp, recheck_argv(sp, flag, parent=(k % 5 == 0)), v, damaged,
+                                       f"{flag} {'parent' if k % 5 == 0 else 'root'}", cwd)
+                        k += 1
+        versions = ["1", "1a", "2", "3"] if ctx.tier == "thorough" else [ctx.rng.choice(["1", "2", "1a"]), "3"]
         for v in versions:
-            for damaged in (False, True):
-                for sp in (("recheck", "check") if ctx.tier == "thorough" else (ctx.rng.choice(["recheck", "check"]),)):
-                    check_readonly("recheck", sp, lambda p, m, sp=sp: [sp, m, p], v, damaged, "root")
-                    check_readonly("recheck", sp, lambda p, m, sp=sp: ["-q", sp, m, os.path.dirname(p)], v, damaged, "parent-quiet")
-                check_readonly("info", "info", lambda p, m: ["info", m], v, damaged, "")
-                for sp, mv in (("magnet", "0"), ("m", "2" if v != "1" else "1"), ("magnet", "3"), ("m", "1")):
-                    if ctx.tier == "quick" and mv in ("3",) and v != "3":
+            for damaged in ((False, "missing", "corrupt+missing") if ctx.tier == "thorough" else (False, "missing")):
+                for flag in (FLAGS if ctx.tier == "thorough" else ("-v", None)):
+                    cwd = CWDS[(FLAGS.index(flag) + len(v)) % 3]
+                    check_readonly("info", "info", lambda p, m, flag=flag: ([flag] if flag else []) + ["info", m], v, damaged,
+                                   f"{flag}", cwd)
+                for sp, mv in (("magnet", "0"), ("m", "2" if v not in ("1", "1a") else "1"), ("magnet", "3"), ("m", "1")):
+                    if ctx.tier == "quick" and (mv in ("3",) and v != "3" or damaged and mv != "0"):
                         continue
-                    check_readonly("magnet", sp, lambda p, m, sp=sp, mv=mv: ["-v", sp, m, "--meta-version", mv], v, damaged, mv)
+                    flag = FLAGS[(int(mv) + len(v)) % 5]
+                    check_readonly("magnet", sp, lambda p, m, sp=sp, mv=mv, flag=flag: ([flag] if flag else []) +
+                                   [sp, m, "--meta-version", mv], v, damaged, f"{flag} {mv}", CWDS[int(mv) % 3])
 
         # ---------------------------------------------------------------- create
         def check_create(spelling, version, variant):
@@ -174,6 +227,21 @@ def run(ctx, model_ok):
             for vic in victims:
                 with open(vic, "wb") as fd:
                     fd.write(b"precious")
+            # bystanders: files whose names are plausible temporaries / backups of the output, in the output directory, the
+            # working directory and next to the payload -- create must leave every one of them exactly as it was
+            base = os.path.basename(expect)
+            names = [base + ".tmp", base + "~", base + ".bak", "." + base + ".swp", base + ".part", ".torrent",
+                     "payload.torrent.tmp", base + ".temp", base + ".new", base + ".old", base + ".lock", "." + base + ".tmp",
+                     base + ".tmp~", "." + base, base + ".1", "tmp", "temp.torrent", ".tmp.torrent", "payload.tmp"]
+            bystanders = 0
+            for dd in (os.path.dirname(expect), wd, os.path.dirname(payload)):
+                for nm in names:
+                    bp = os.path.join(dd, nm)
+                    if bp == expect or os.path.exists(bp):
+                        continue
+                    with open(bp, "wb") as fd:
+                        fd.write(b"bystander " + nm.encode())
+                    bystanders += 1
             argv += [payload]
             before = snapshot(sb)
             rc, out, ev = run_cli(sb, wd, argv, counter[0])
@@ -183,9 +251,10 @@ def run(ctx, model_ok):
             inp = {"command": spelling or "<implicit create>", "version": version, "variant": variant,
                    "argv": [a.replace(sb, "<sandbox>") for a in argv]}
             if rc != 0 or set(d) != {rel}:
-                ctx.fail("create-wrote-other-than-one-file", inp, {rel: "added/changed"}, {"rc": rc, "out": out, "diff": d})
+                ctx.fail("create-wrote-other-than-one-file", inp, {rel: "added/changed"},
+                         {"rc": rc, "out": out, "diff": d, "bystanders_present_before": bystanders})
             tie("create", ev, inp)
-            ctx.case(key=("create", spelling, version, variant), classes=["create " + variant])
+            ctx.case(key=("create", spelling, version, variant), classes=["create " + variant, "create among temp-named bystanders"])
         for sp, v, var in ([("create", "1", "no-out"), ("new", "2", "out-dir"), ("", "3", "out-file"), ("create", "3", "out-existing"),
                             ("create", "2", "no-out"), ("", "1", "out-dir")]
                            if ctx.tier == "quick" else
